@@ -267,6 +267,14 @@ func CheckPublishersOpt(override bool, sameStream bool) func(o *vsched.Outcome) 
 				if prev, ok := gotFrom[r]; ok && prev != x && !sameStream {
 					return "mixed-publishers", fmt.Sprintf("reader %s received units of two publishers on one stream | %s", r, tr)
 				}
+				if sameStream {
+					// one stream, pushes serialised by its lock: after a unit of the replacing publisher, nothing of the replaced one
+					if prev, ok := gotFrom[r]; ok && prev != x {
+						if ra, ok2 := replacedAt[x]; ok2 && attachedAt[prev] >= ra {
+							return "stale-publisher-data-after-new", fmt.Sprintf("reader %s received %s of the replaced publisher %s after a unit of its successor %s | %s", r, u, x, prev, tr)
+						}
+					}
+				}
 				gotFrom[r] = x
 				if ra, ok := replacedAt[x]; ok && beginAt[u] > ra && (readingAt[r] > ra || sameStream) {
 					return "stale-publisher-data", fmt.Sprintf("unit %s was written after %s had been replaced/removed and still reached reader %s attached afterwards | %s", u, x, r, tr)
